@@ -180,8 +180,9 @@ impl MessageBufReader {
     }
 
     pub fn is_empty(&self) -> bool {
-        if self.start >= self.buf.len() {
-            true
+        if self.start >= self.end {
+            // buffered data exhausted: the next byte is not known yet, so this is not the end mark
+            false
         } else {
             self.buf[self.start] == 0
         }
